@@ -106,6 +106,49 @@ pub fn run(rep: &mut Rep) {
             }
         }
     }
+    // across the identifier wrap: operations of one kind issued while the 16-bit counter passes 65535 -> 1, all
+    // outstanding together, acknowledged in reverse and in PRNG order with distinct contents
+    rep.note("identifier wrap: 6 operations of one kind (pub1 / pub2 / sub / unsub, and mixed) started with the counter at 65531..65535 (hook H2) from two clones, all outstanding, acknowledged last-first / PRNG order, each with its own reason code and reason string");
+    for (ki, kind) in [Some(Kind::Pub1), Some(Kind::Pub2), Some(Kind::Sub), Some(Kind::Unsub), None].iter().enumerate() {
+        for start in 65531u16..=65535 {
+            for order in 0..2u8 {
+                let id = format!("wrap:{ki}:{start}:{order}");
+                idx += 1;
+                if !rep.take(idx, &id) {
+                    continue;
+                }
+                let mut rng = crate::sim::Rng::new(rep.seed.wrapping_mul(389).wrapping_add(idx));
+                let mut w = World::boot(WorldCfg { seed: rep.seed, seed_ids: Some((start, 50)), ..Default::default() });
+                let mixed = [Kind::Pub1, Kind::Sub, Kind::Pub2, Kind::Unsub, Kind::Pub1, Kind::Sub];
+                let mut ops = Vec::new();
+                for j in 0..6usize {
+                    ops.push(w.start(j % 2, kind.unwrap_or(mixed[j])));
+                    w.settle_check();
+                }
+                let mut guard = 0;
+                loop {
+                    let mut ackable = w.ackable();
+                    if ackable.is_empty() || w.blind || guard > 40 {
+                        break;
+                    }
+                    let pick = if order == 0 { ackable.len() - 1 } else { rng.below(ackable.len()) };
+                    let (i, st) = ackable.swap_remove(pick);
+                    w.deliver_ack(i, st, guard % 9, 1);
+                    w.settle_check();
+                    guard += 1;
+                }
+                super::script::finish(&mut w);
+                rep.add("evaluations", 1);
+                rep.add("identifier_wrap_cases", 1);
+                rep.distinct(&("wrap", ki, start, order));
+                if super::harvest(rep, &mut w, &id) == 0 {
+                    let ids: Vec<u16> = w.m.iter().filter_map(|m| m.pkt_id).collect();
+                    rep.sample(|| format!("{id}: identifiers {:?}, every operation completed with its own acknowledgement", ids));
+                }
+                super::add_counters(rep, &w);
+            }
+        }
+    }
     // acknowledgements on a resumed connection: handshakes carried over from the previous connection complete with
     // the acknowledgement addressed to them, whatever the new connection's Receive Maximum is
     rep.note("resumed connection: 1-6 QoS 1/2 publishes unfinished (some QoS 2 ones released) when the connection is lost, session resumed with the new CONNACK announcing Receive Maximum absent / 1 / 2 / 3 (also fewer than the handshakes carried over), new operations of other kinds started, every acknowledgement delivered in PRNG order with success / failure reasons: each future completes exactly once with its own acknowledgement");
